@@ -1407,21 +1407,21 @@ theorem validated_confirm_never_fails_decoding (E : VbEnv) (t : TxConfirm) (h : 
   repeat' split
   all_goals simp_all
 
-/-- both address validators (regenerated statement lists) end with the canonical-spelling comparison: a text they admit is
+/-- both address validators (regenerated statement lists) end with the canonical-spelling comparison: a text they accept is
 non-empty and IS the rendering of what it parses to (EIP-55 checksummed hex / `EncodeCheck` base58) — whatever the format
 predicates and the re-rendering function are -/
-theorem admitted_address_is_canonical (tron : Bool) (P : AddrPrims) (text : String)
+theorem accepted_address_is_canonical (tron : Bool) (P : AddrPrims) (text : String)
     (h : addrValid P (addrChecksOf tron) text = true) : P.canon text = text ∧ text ≠ "" :=
   addr_canonical tron P text h
 
 /-- hence two admitted texts of ONE address are one text: no second spelling of a token contract or of an oracle's external
 address passes message validation -/
-theorem admitted_spellings_of_one_address_equal {α : Type} (tron : Bool) (P : AddrPrims) (parse : String → α) (render : α → String)
+theorem accepted_spellings_of_one_address_equal {α : Type} (tron : Bool) (P : AddrPrims) (parse : String → α) (render : α → String)
     (hP : ∀ t, P.canon t = render (parse t)) (t1 t2 : String)
     (h1 : addrValid P (addrChecksOf tron) t1 = true) (h2 : addrValid P (addrChecksOf tron) t2 = true)
     (hp : parse t1 = parse t2) : t1 = t2 := by
-  have a := (admitted_address_is_canonical tron P t1 h1).1
-  have b := (admitted_address_is_canonical tron P t2 h2).1
+  have a := (accepted_address_is_canonical tron P t1 h1).1
+  have b := (accepted_address_is_canonical tron P t2 h2).1
   rw [hP] at a b
   rw [← a, ← b, hp]
 
@@ -1442,8 +1442,8 @@ theorem tx_stored_confirms_name_canonical_texts (tron : Bool) (P : AddrPrims) (r
       | ok st' =>
         obtain ⟨hv, hc⟩ := (tx_accept_iff _ tron recoverBy st st' t).1 hx
         obtain ⟨_, _, he, ht, _⟩ := (validate_basic_pass_iff _ t).1 hv
-        exact canon_confirmStep P _ st st' t.m hc (admitted_address_is_canonical tron P _ he).1
-          (fun tok n hk => (admitted_address_is_canonical tron P _ (ht tok n hk)).1) h
+        exact canon_confirmStep P _ st st' t.m hc (accepted_address_is_canonical tron P _ he).1
+          (fun tok n hk => (accepted_address_is_canonical tron P _ (ht tok n hk)).1) h
   suffices ∀ st, CanonEntries P st → CanonEntries P (txRun (envOf tron P reg b32) tron recoverBy st ops) from
     this {} (by intro e he; simp at he)
   induction ops with
@@ -1569,7 +1569,7 @@ example : validateBasic exE ⟨"eth", ⟨.batch "0xAbC" 3, "fx1bridger", "0xAbC"
     (validateBasic exE ⟨"bsc", ⟨.bridgeCall 3, "fx1bridger", "0xAbC", none⟩⟩).map (·.text) = some "unrecognized cross chain name" := by
   decide
 
-/-- the address validators admit something and reject a non-canonical spelling (toy instance: length constant 5) -/
+/-- the address validators accept something and reject a non-canonical spelling (toy instance: length constant 5) -/
 example : addrValid exP (addrChecksOf true) "0xAbC" = true ∧ addrValid exP (addrChecksOf true) "0xabc" = false := by
   simp [addrValid, addrChecksOf, addrValidatorOf, List.lookup, tronAddrChecks, addrCheckFails, lenArg, exP]
   decide
